@@ -715,6 +715,151 @@ func runC04(s *kit.Session, c c04Case) *kit.Failure {
 	return nil
 }
 
+
+// ---- bounded-exhaustive enumeration --------------------------------------------
+
+// c04EnumLogs lists every log of exactly n entries over the alphabet:
+// reference entry for main (targets c1 / s1), feature, the policy ref;
+// propagation entry for main from upstream A; annotation naming one earlier
+// entry (skip or not). legacy > 0 marks that many leading entries unnumbered.
+func c04EnumLogs(n int) [][]kit.AbsEntry {
+	base := []kit.AbsEntry{
+		{Kind: "ref", Ref: "refs/heads/main", Target: 1},
+		{Kind: "ref", Ref: "refs/heads/main", Target: 3},
+		{Kind: "ref", Ref: "refs/heads/feature", Target: 2},
+		{Kind: "ref", Ref: "refs/gittuf/policy", Target: 0},
+		{Kind: "prop", Ref: "refs/heads/main", Target: 2, Up: "https://up/A"},
+	}
+	out := [][]kit.AbsEntry{}
+	var rec func(cur []kit.AbsEntry)
+	rec = func(cur []kit.AbsEntry) {
+		if len(cur) == n {
+			out = append(out, append([]kit.AbsEntry(nil), cur...))
+			return
+		}
+		for _, b := range base {
+			rec(append(cur, b))
+		}
+		for j := 0; j < len(cur); j++ {
+			for _, skip := range []bool{true, false} {
+				rec(append(cur, kit.AbsEntry{Kind: "ann", Ann: []int{j}, Skip: skip}))
+			}
+		}
+	}
+	rec(nil)
+	return out
+}
+
+// c04EnumQueries lists the systematic query set for a log of n entries: every
+// combination of the seven conditions of GetLatestReferenceUpdaterEntry with
+// bounds at every position (by id and by number, plus one out-of-range number),
+// and every argument of the other readers.
+func c04EnumQueries(n int, full bool) []c04Query {
+	var qs []c04Query
+	type bound struct {
+		id  int
+		num uint64
+	}
+	bounds := []bound{{-1, 0}}
+	for p := 0; p < n; p++ {
+		bounds = append(bounds, bound{p, 0}, bound{-1, uint64(p + 1)})
+	}
+	bounds = append(bounds, bound{-1, uint64(n + 1)})
+	refs := []string{"", "refs/heads/main", "refs/gittuf/policy"}
+	flags := 16
+	for _, ref := range refs {
+		for _, b := range bounds {
+			for _, u := range bounds {
+				for f := 0; f < flags; f++ {
+					if !full && f != 0 && f != 1 && f != 2 && f != 4 && f != 8 && f != 3 {
+						continue
+					}
+					q := c04Query{Fn: "latest", Ref: ref, BeforeID: b.id, BeforeNum: b.num, UntilID: u.id, UntilNum: u.num,
+						Unskipped: f&1 != 0, NonGittuf: f&2 != 0, IsRef: f&4 != 0}
+					if f&8 != 0 {
+						q.PropRepo = "https://up/A"
+					}
+					qs = append(qs, q)
+				}
+			}
+		}
+	}
+	none := func(q c04Query) c04Query { q.BeforeID, q.UntilID = -1, -1; return q }
+	qs = append(qs, none(c04Query{Fn: "first"}), none(c04Query{Fn: "latestentry"}))
+	for _, ref := range []string{"refs/heads/main", "refs/heads/feature", "refs/gittuf/policy", "refs/tags/v1"} {
+		qs = append(qs, none(c04Query{Fn: "firstref", Ref: ref}))
+	}
+	for a := 0; a < n; a++ {
+		for b := 0; b < n; b++ {
+			qs = append(qs, none(c04Query{Fn: "range", First: a, Last: b}))
+			for _, ref := range []string{"refs/heads/main", "refs/heads/feature"} {
+				qs = append(qs, none(c04Query{Fn: "rangeref", First: a, Last: b, Ref: ref}))
+			}
+		}
+		qs = append(qs, none(c04Query{Fn: "nongittuf", Entry: a}), none(c04Query{Fn: "parent", Entry: a}))
+	}
+	for cmt := 0; cmt < 5; cmt++ {
+		qs = append(qs, none(c04Query{Fn: "forcommit", Commit: cmt}))
+	}
+	return qs
+}
+
+// c04EnumCase maps an index to (log, legacy prefix, corruption) with the full
+// query set attached.
+func c04EnumCase(logsByLen map[int][][]kit.AbsEntry, maxLen int, plan func(n int) (corrupt, allLegacy, full bool), i int) (c04Case, bool) {
+	for n := 0; n <= maxLen; n++ {
+		logs := logsByLen[n]
+		corrupt, allLegacy, full := plan(n)
+		// variants per log: legacy prefix length 0..n, and (optionally) one corruption
+		type variant struct {
+			legacy int
+			cor    *kit.Corruption
+		}
+		vars := []variant{}
+		for l := 0; l <= n; l++ {
+			if allLegacy || l == 0 || l == n/2 {
+				vars = append(vars, variant{l, nil})
+			}
+		}
+		if corrupt {
+			for p := 0; p < n; p++ {
+				for _, k := range []string{"extra-parent", "gap", "dup", "garbage"} {
+					if p == 0 && k != "garbage" {
+						continue
+					}
+					vars = append(vars, variant{0, &kit.Corruption{Kind: k, Pos: p}})
+				}
+			}
+		}
+		total := len(logs) * len(vars)
+		if i >= total {
+			i -= total
+			continue
+		}
+		log := append([]kit.AbsEntry(nil), logs[i/len(vars)]...)
+		v := vars[i%len(vars)]
+		for j := 0; j < v.legacy; j++ {
+			log[j].Legacy = true
+			if log[j].Kind == "prop" { // propagation entries postdate numbering
+				log[j].Kind, log[j].Up = "ref", ""
+			}
+		}
+		c := c04Case{Log: log, Cor: v.cor, Queries: c04EnumQueries(n, full)}
+		if v.cor != nil && v.cor.Kind == "garbage" {
+			// annotations naming the garbage entry could not have been recorded
+			for _, e := range log[v.cor.Pos+1:] {
+				for _, a := range e.Ann {
+					if a == v.cor.Pos {
+						c.Queries = nil
+					}
+				}
+			}
+		}
+		return c, true
+	}
+	return c04Case{}, false
+}
+
 func TestC04(t *testing.T) {
 	s := kit.Open(t, "C04")
 	run := func(c c04Case) *kit.Failure { return runC04(s, c) }
@@ -722,6 +867,41 @@ func TestC04(t *testing.T) {
 		kit.DoReplay(s, t, rf, run)
 		return
 	}
-	s.SetRule("rapid: logs of 0-12 entries over 6 refs (incl. refs/gittuf/*), kinds {reference, propagation(A|B), annotation(1-3 earlier targets, skip or not)}, optional unnumbered prefix, optionally one corruption {extra parent, number gap, number duplicate, garbage message} at any position; 1-8 queries per log over all readers and option combinations with bounds drawn from every log position plus out-of-range numbers/unknown ids; each query evaluated cold and warm. One evaluation = one (log, query). Non-trivial: log has >=1 annotation or >=2 refs AND the query has >=2 conditions or a positional bound; distinct by SHA-256 of (log, corruption, query)")
+	s.SetRule("rapid: logs of 0-12 entries over 6 refs (incl. refs/gittuf/*), kinds {reference, propagation(A|B), annotation(1-3 earlier targets, skip or not)}, optional unnumbered prefix, optionally one corruption {extra parent, number gap, number duplicate, garbage message} at any position; 1-8 queries per log over all readers and option combinations with bounds drawn from every log position plus out-of-range numbers/unknown ids; each query evaluated cold and warm. Plus a bounded-exhaustive enumeration (see enumeration_bound). One evaluation = one (log, query). Non-trivial: log has >=1 annotation or >=2 refs AND the query has >=2 conditions or a positional bound; distinct by SHA-256 of (log, corruption, query)")
 	kit.Campaign(s, t, "queries", "queries", s.Budget(60_000, 2_000_000), genC04, run)
+	// bounded-exhaustive: every log up to a length bound x every legacy prefix x
+	// (every single-point corruption) x the systematic query set
+	// quick: logs <=2 with everything, logs of 3 without corruption; thorough:
+	// logs <=3 with everything and all 16 flag combinations, logs of 4 without
+	// corruption and with 6 of the 16 flag combinations
+	maxLen := 3
+	plan := func(n int) (bool, bool, bool) { return n <= 2, n <= 2, false }
+	planText := "logs of 0..2 entries: every unnumbered-prefix length, every single-point corruption; logs of 3 entries: prefix lengths {0, 1}, no corruption; 6 of the 16 flag combinations"
+	if s.Thorough() {
+		maxLen = 4
+		plan = func(n int) (bool, bool, bool) { return n <= 3, n <= 3, n <= 3 }
+		planText = "logs of 0..3 entries: every unnumbered-prefix length, every single-point corruption, all 16 flag combinations; logs of 4 entries: prefix lengths {0, 2}, no corruption, 6 of the 16 flag combinations"
+	}
+	logsByLen := map[int][][]kit.AbsEntry{}
+	for n := 0; n <= maxLen; n++ {
+		logsByLen[n] = c04EnumLogs(n)
+	}
+	runMin := func(c c04Case) *kit.Failure {
+		f := run(c)
+		if f == nil {
+			return nil
+		}
+		// keep the replay file small: find the single failing query
+		for _, q := range c.Queries {
+			one := c04Case{Log: c.Log, Cor: c.Cor, Queries: []c04Query{q}}
+			if g := kit.SafeRun("queries", one, run); g != nil {
+				g.Case = one
+				return g
+			}
+		}
+		return f
+	}
+	ok := kit.Enumerate(s, t, "enum", "queries", func(i int) (c04Case, bool) { return c04EnumCase(logsByLen, maxLen, plan, i) }, runMin)
+	s.SetExhaustive(ok)
+	s.SetExtra("enumeration_bound", fmt.Sprintf("every log of 0..%d entries over {main->c1, main->s1, feature->c2, policy->c0, propagation(main, upstream A), annotation of one earlier entry (skip / no skip)} x unnumbered prefixes x {no corruption, each of extra-parent / gap / dup / garbage at each position} x the systematic query set (latest: refs {none, main, policy} x before {none, every position by id, every number, n+1} x until {same} x flag combinations of unskipped / non-gittuf / is-reference / propagation-for-A; first, latest entry, firstref x4, range / rangeref over all position pairs, non-gittuf parent and parent of every entry, for-commit over the 5 pool commits), each cold and warm. %s", maxLen, planText))
 }
